@@ -457,6 +457,9 @@ func runProgram(p progIn) (res progOut) {
 		}
 		return 0
 	}))
+	// glimit(n): the specification's call-depth limit; the real limit is Options.CallStackSize, and programs that use
+	// glimit recurse without bound, so they meet whichever limit is in force
+	L.SetGlobal("glimit", L.NewFunction(func(L *lua.LState) int { L.CheckNumber(1); return 0 }))
 	L.SetGlobal("ghuge", lua.LNumber(math.Inf(1))) // the specification's name for "more than any run gets to count"
 	L.SetGlobal("gerr", L.NewFunction(func(L *lua.LState) int {
 		L.RaiseError("%s", L.CheckString(1)) // a host function failing the ordinary way
